@@ -105,7 +105,7 @@ def check_construction(rep, f, c, M, what, ref_mean, ref_cov):
         from .. import mnf_eval as ME
         p = 5
         X = [3, 0, 4, 1, 2] if full else [4, 1]
-        return ME.Point(p, {C: ME.rand_spd(rnd, p), MU: ME.rand_vec(rnd, p), Px: ME.rand_vec(rnd, len(X))}, {PY: [3, 0], PX: X})
+        return ME.Point(p, {C: ME.rand_spd(rnd, p), MU: ME.rand_vec(rnd, p), Px: ME.rand_vec(rnd, len(X))}, {PY: [3, 0], PX: X}, mnf=M)
     from .common import hidden_state
     if hidden_state(rep, "HISTORY.%s" % what, fwhere(f, c.node, construct="%s result" % what), [c.args[0], c.args[1]], {"mean", "covariance", "p"}, f=f):
         return
